@@ -106,6 +106,9 @@ struct Machine {
 	int              nurl = 0;
 	std::vector<std::string> paths;
 	nng_http_server *hsrv = nullptr; // HTTP world (one echo server per machine)
+	bool             final_probe = false; // run one more fault-free HTTP round before teardown
+	int              final_http  = -1000;
+	long             fault_serial = 0;
 	nng_url         *hurl = nullptr;
 	int              hport = 0;
 	bool             own_fail = false; // an ownership violation was seen (message not live when the API says we own it)
@@ -764,6 +767,14 @@ run(Machine *M, const vcase *vc, int from)
 	for (int i = from; i < vc->nops; i++) {
 		vr_at(i, vc->ops[i].name);
 		M->rcs.push_back(step(M, &vc->ops[i]));
+		vs_settle();
+	}
+	// objects that survived an injected fault must still work: the machine's HTTP server serves a fresh client
+	M->final_http = -1000;
+	if (M->hsrv != nullptr && M->final_probe) {
+		M->fault_serial = at_failed_serial(); // (disarming resets the record)
+		at_fail_at(0);
+		M->final_http = http_round(M, 0);
 		vs_settle();
 	}
 	teardown(M);
